@@ -4,15 +4,7 @@ import os
 
 VERIF = os.path.dirname(os.path.dirname(os.path.abspath(__file__)))
 
-CHECKS = {}     # pid -> dict(level, text, note, technique, design_ref)
-NOT_APPLICABLE = {}
-
-
-def check(pid, level, text, note, technique, ref):
-    CHECKS[pid] = dict(level=level, text=text, note=note, technique=technique, ref=ref)
-
-
-from .manifest_table import *  # noqa  (fills CHECKS / NOT_APPLICABLE)
+from .manifest_table import CHECKS, NOT_APPLICABLE
 
 
 def main():
